@@ -33,6 +33,7 @@ func NewInst(p *Plan, name string, imp *Inst) *Inst {
 		in.Table[s] = s + 1
 	}
 	in.Table[SlotOdd] = -2
+	in.Cells[NCells-1] = ActiveData
 	return in
 }
 
